@@ -77,7 +77,7 @@ theorem back_total (buf : Buf) (pos : Nat) (h : pos ≤ buf.size) :
 /-- `Lexer::next_stream`: `end - word.len()` cannot underflow, `pos + 6` / `pos + 7` are bounds-checked reads. -/
 theorem next_stream_total (buf : Buf) (pos : Nat) (h : pos ≤ buf.size) :
     nextStream buf pos = .err ∨ ∃ p, nextStream buf pos = .ok p ∧ pos < p ∧ p ≤ buf.size :=
-  nextStream_spec buf pos h
+  nextStream_cases buf pos h
 
 /-- `Lexer::next_expect`. -/
 theorem next_expect_total (buf : Buf) (pos : Nat) (expected : List UInt8) (h : pos ≤ buf.size) :
@@ -156,7 +156,7 @@ theorem lexer_inv (buf : Buf) (pos : Nat) (h : pos ≤ buf.size) :
     · rw [he] at hp; cases hp
     · rw [hp'] at hp; cases hp; exact h2
   · intro p hp
-    rcases nextStream_spec buf pos h with he | ⟨p', hp', _, h2⟩
+    rcases nextStream_cases buf pos h with he | ⟨p', hp', _, h2⟩
     · rw [he] at hp; cases hp
     · rw [hp'] at hp; cases hp; exact h2
   · intro x p hp; rw [setPos_spec buf pos x h] at hp; cases hp; omega
